@@ -420,6 +420,7 @@ def run(repo, rep, tier):
     _order_and_text_rules(repo, rep, tp)
     _linearity(repo, rep)
     _null_vs_empty(repo, rep, tp)
+    _attr_own_condition(repo, rep)
     # the datetime writer str(CIMDateTime) is part of every VALUE written for
     # a datetime: same exact-arithmetic rule as C06.R8
     from .c06 import _r8_exact_fields
@@ -766,3 +767,54 @@ def _null_vs_empty(repo, rep, tp):
     if r.sites < 1 and not r.findings:
         raise AnalysisError('no `is None` test of a parsed CIM value found '
                             '(anchor of C01.R11)')
+
+
+def _attr_own_condition(repo, rep):
+    """C01.R13: whether an element writer emits an attribute depends only on
+    that attribute's own value.  A setAttribute / setOptionalAttribute call
+    that sits under a condition about a different parameter (typically by
+    an indentation slip) drops the attribute for some combinations - the
+    XML stays valid and the value silently reads back as None."""
+    from ..cfg import stmt_facts
+    r13 = rep.rule('C01.R13', 'an attribute is emitted depending only on its '
+                   'own value')
+    m = repo.module('pywbem/_cim_xml.py')
+    for c in m.classes.values():
+        init = c.methods.get('__init__')
+        if init is None:
+            continue
+        sets = []
+        for st, (fs, _t) in stmt_facts(init.node).items():
+            if isinstance(st, ast.Expr) and isinstance(st.value, ast.Call) \
+                    and (dotted(st.value.func) or '') in (
+                        'self.setAttribute', 'self.setOptionalAttribute') \
+                    and len(st.value.args) == 2:
+                sets.append((st, fs))
+        own = {}
+        for st, fs in sets:
+            a = norm(st.value.args[0])
+            own.setdefault(a, set()).update(
+                x.id for x in ast.walk(st.value.args[1])
+                if isinstance(x, ast.Name))
+        for st, fs in sets:
+            r13.sites += 1
+            r13.functions.add(init.fq)
+            a = norm(st.value.args[0])
+            gn = set()
+            for t, _p in fs:
+                gn |= {x.id for x in ast.walk(t) if isinstance(x, ast.Name)}
+            extra = sorted(gn - own[a] - {'self'})
+            r13.ob(not extra, '%s|%s' % (c.name, a),
+                   {'element_class': c.name, 'attribute': a})
+            if extra:
+                rep.finding(r13, init.qualname, norm(st, 80),
+                            'foreign-condition', 'pywbem/_cim_xml.py',
+                            st.lineno,
+                            'attribute %s is only written when a condition '
+                            'on %s holds, which is not its own value: for '
+                            'the other combinations the attribute is '
+                            'silently dropped and reads back as None'
+                            % (a, ', '.join(extra)))
+    if r13.sites < 40:
+        raise AnalysisError('C01.R13: only %d attribute writes found'
+                            % r13.sites)
